@@ -70,7 +70,8 @@ def jobs():
                                (nblk, errat, "single body" if single else "per block"),
                           bounds={"blocks": nblk, "order": sq, "error_at": errat, "single_body": single}))
     # B3: client Block1 upload: coap_add_data_large_request_lkd + coap_send_lkd + dispatch of the 2.31/2.04 answers
-    for ln, mx, peer, tier in ((40, 100, -1, "quick"), (40, 86, -1, "quick"), (33, 100, -1, "quick"), (40, 100, 0, "quick"), (16, 100, -1, "quick")):
+    for ln, mx, peer, tier in ((40, 100, -1, "quick"), (33, 100, -1, "quick"),   # (40, 86): PDU maximum forcing a smaller block size - no verdict within 900 s, not registered
+                                (40, 100, 0, "quick"), (16, 100, -1, "quick")):
         js.append(Job("B3-send@len%d-max%d%s" % (ln, mx, "-peer%d" % peer if peer >= 0 else ""), "C09/c09d.c", "c09_b3_send", NU, extra_src=NE,
                       defines=["LEN=%d" % ln, "MAXSIZE=%d" % mx, "PEERSZX=%d" % peer] + [c for c in cut2 if c != "UNREACH_HANDLE_RESPONSE"],
                       remove_bodies=[r for r in rb2 if not r.endswith("handle_response")], unwind=50, flags=FS, group="B3-send", timeout=900, est_gb=4, tier=tier,
